@@ -488,7 +488,7 @@ class RunningShow:
 
     __slots__ = ["machine", "show", "show_steps", "show_config", "callback", "start_step", "start_running",
                  "start_callback", "_delay_handler", "next_step_index", "current_step_index", "next_step_time",
-                 "name", "loops", "id", "_players", "debug", "_stopped", "_total_steps", "context"]
+                 "name", "loops", "id", "_players", "debug", "_stopped", "_paused", "_total_steps", "context"]
 
     # pylint: disable-msg=too-many-arguments
     # pylint: disable-msg=too-many-locals
@@ -514,6 +514,7 @@ class RunningShow:
 
         self.debug = False
         self._stopped = False
+        self._paused = False
         self._total_steps = None
         self.show_steps = self.show.get_show_steps_with_token(self.show_config.show_tokens)
         self._start_play()
@@ -591,13 +592,24 @@ class RunningShow:
 
     def pause(self):
         """Pause show."""
+        if self._stopped:
+            return
         self.machine.show_controller.debug_log("Pausing show %s", self.show.name)
         self._remove_delay_handler()
+        self._paused = True
         if self.show_config.events_when_paused:
             self._post_events(self.show_config.events_when_paused)
 
     def resume(self):
         """Resume paused show."""
+        if self._stopped:
+            return
+        if not self._paused:
+            # nothing to resume: the pending step timer stays in charge of the schedule
+            if self.show_config.events_when_resumed:
+                self._post_events(self.show_config.events_when_resumed)
+            return
+        self._paused = False
         self.machine.show_controller.debug_log("Resuming show %s", self.show.name)
         self.next_step_time = self.machine.clock.get_time()
         self._run_next_step(post_events=self.show_config.events_when_resumed)
@@ -616,6 +628,9 @@ class RunningShow:
 
     def advance(self, steps=1, show_step=None):
         """Manually advance this show to the next step."""
+        if self._stopped:
+            return
+        self._paused = False
         self._remove_delay_handler()
         self.next_step_time = self.machine.clock.get_time()
 
@@ -631,6 +646,9 @@ class RunningShow:
 
     def step_back(self, steps=1):
         """Manually step back this show to a previous step."""
+        if self._stopped:
+            return
+        self._paused = False
         self._remove_delay_handler()
         self.next_step_time = self.machine.clock.get_time()
 
@@ -703,6 +721,8 @@ class RunningShow:
         self.next_step_index += 1
 
         time_to_next_step = self.show_steps[self.current_step_index]['duration'] / self.show_config.speed
+        if pause_after_step:
+            self._paused = True
         if not self.show_config.manual_advance and time_to_next_step > 0 and not pause_after_step:
             self.next_step_time += time_to_next_step
             self._delay_handler = self.machine.clock.loop.call_at(when=self.next_step_time,
